@@ -3,6 +3,10 @@
 // Contracts for the verifier in /verif (comment-only file; contributes no declarations).
 package streamflow
 
+// C05: the validated part of a graph is ranked (see the walker's contract in package stream)
+//@ ghost field FlowGraphNode.ranked bool
+//@ ghost field FlowGraphNode.rank int
+
 // The edges a node shows to the walker are its own edge list, in order.
 //@ func (*FlowGraphNode).GetEdges
 //@   prop C04
